@@ -95,6 +95,22 @@ func init() {
 		QuickRuns: 3000, QuickSecs: 60, ThorRuns: 50000, ThorSecs: 900,
 	})
 	Register(&Check{
+		ID: "C14", Engine: "coop", Overlay: "coop",
+		Real:      []string{"msg.Box (HandleMessage, storeOrForward, Send, getOrCreateMessagesByTopic, markTopicForSender, maybeGC, clock goroutine) with the imports sync and sync/atomic redirected to scheduler-aware shims by go build -overlay; no other token of the package changes"},
+		Stub:      []string{"callers (1..3 receiving tasks = one goroutine per peer connection, 1..3 sending tasks = protocol goroutines)", "MessageHandler (recording; in 30% of the runs it calls Box.Send itself, as the orchestrator does when it acknowledges)", "ForwardSend (no-op)", "ticker (simulator-owned channel through the NewTicker seam)", "logger (counting stub)"},
+		Rule:      "one case = one seeded workload (1..3 topics, 1..3 senders with 1..4 messages each, 1..3 sending tasks, 0..2 clock ticks) and one seeded interleaving at the granularity of every Lock/Unlock/RLock/RUnlock/atomic/Once operation of the real code (random walk, PCT d=1..3, delay-bounded); distinct = distinct sequence of (task, operation) choices; non-trivial = at least one Send task ran between two operations of a receiving task",
+		Assume:    []string{"senders stay within the documented per-sender limits", "the scheduler's lock model admits exactly the interleavings of Go's sync.RWMutex in which a parked task has not yet executed its pending operation"},
+		QuickRuns: 20000, QuickSecs: 60, ThorRuns: 400000, ThorSecs: 900, Batch: 400,
+	})
+	Register(&Check{
+		ID: "C15", Engine: "box",
+		Real:      []string{"msg.Box (storeOrForward, limits, markTopicForSender, Send, maybeGC, mark, sweep, clock goroutine) with its real ticker and time.Now on the simulated clock"},
+		Stub:      []string{"callers (one sequential history)", "MessageHandler (recording)", "ForwardSend (no-op)", "logger (counting stub)"},
+		Rule:      "one case = one seeded history of 20..250 (thorough ..2500) operations recv(sender, topic, burst 1..110) / send(topic) / idle(0..expiry+4 sweeps) on a Box with MaxInFlightTopicsBySender 1..6, GCSweep 1/5/20 s and GCExpire 2..6 sweeps (production values in part of the thorough runs), judged operation by operation by a reference model with tolerances (limit +-1; data surely alive before expiry - 1 sweep, surely discarded after expiry + 2 sweeps and three later sends in distinct sweep periods, either in between); distinct = distinct (configuration, history); non-trivial = at least one buffered message was released by a start and at least one idle period occurred",
+		Assume:    []string{"single caller (interleavings are C14's subject)", "the GC is driven by Send, so 'eventually discarded' is judged only after later sends"},
+		QuickRuns: 6000, QuickSecs: 60, ThorRuns: 100000, ThorSecs: 900, Batch: 150,
+	})
+	Register(&Check{
 		ID: "C19", Engine: "netsim",
 		Real:      []string{"mpc/binance/eddsa and mpc/binance/ecdsa adapters (ClassifyMsg, OnMsg, KeyGen, Sign)", "bnb-chain/tss-lib v2.0.2 (real protocol, its own goroutines)", "threshold.Scheme", "rbc.Receiver", "disc.Member", "disc.SilentSynchronizer", "msg.Box", "crypto/ed25519 and crypto/ecdsa as independent verifiers"},
 		Stub:      append([]string{"recording proxy around the adapters (captures sendMsg routing flags)", "a participant that re-sends other parties' payloads under its own identity (20% of the EdDSA runs)"}, e1Stub...),
